@@ -49,7 +49,7 @@ DEFINERS = [("A",), ("A", "B"), ("A", "B", "C")]
 TARGETS = ["self", "own_cells", "desc_space", "desc_cells", "ancestor", "out_space", "out_cells"]
 MODES = ["auto", "relative", "absolute"]
 DERIVERS = ["static_bases", "static_add", "item_definer", "item_ancestor", "item_nested", "item_of_sub"]
-WORLDS = ["plain", "prefix", "samename", "samename_top"]
+WORLDS = ["plain", "prefix", "samename", "samename_top", "samechild"]
 STATIC = ("static_bases", "static_add", "item_of_sub")
 
 
@@ -76,6 +76,8 @@ def enumerate_cases(tier, seed):
             continue
         if w == "prefix" and t not in ("out_space", "out_cells"):
             continue        # (the prefix-named sibling only matters as a target)
+        if w == "samechild" and (t not in ("out_space", "out_cells") or len(d) == 1):
+            continue        # (an outside target under another parent, named like the definer at the same depth)
         fs = follow
         for f in dict.fromkeys(fs):
             yield {"world": w, "definer": list(d), "target": t, "mode": m, "deriver": dv, "order": order, "follow": f}
@@ -104,6 +106,8 @@ def out_path(case):
     d = tuple(case["definer"])
     if case.get("world") == "prefix":
         return d[:-1] + (d[-1] + "2",)
+    if case.get("world") == "samechild":
+        return ("Q",) + d[1:]
     return ("O",)
 
 
@@ -116,6 +120,11 @@ def build_world(case=None):
         s2.new_cells("oc", "lambda: 1")
     if case is not None and case.get("world") == "samename":
         m.new_space("P")
+    if case is not None and case.get("world") == "samechild":
+        o = m
+        for n in out_path(case):
+            o = o.new_space(n)
+        o.new_cells("oc", "lambda: 1")
     return m
 
 
